@@ -261,7 +261,21 @@ void InterfacePayload::setData(const uint8_t* streamIds,
 bool InterfacePayload::isValidPayload(const uint8_t* data, const size_t size)
 {
     auto header = reinterpret_cast<const Header*>(data);
-    return (size >= sizeof(Header) && header->getInterfaceStatus() <= InterfaceStatus::disabled);
+    if (size < minPayloadSize || header->getInterfaceStatus() > InterfaceStatus::disabled)
+        return false;
+
+    // The stream id list (padded to even length) and the vendor data have to lie inside the payload
+    size_t pos = sizeof(Header);
+    size_t count = swapEndian(*reinterpret_cast<const uint16_t*>(data + pos));
+    count += count % 2;
+    pos += sizeof(uint16_t);
+    if (size - pos < count + sizeof(uint16_t))
+        return false;
+    pos += count;
+    const size_t vendorDataLength = swapEndian(*reinterpret_cast<const uint16_t*>(data + pos));
+    pos += sizeof(uint16_t);
+
+    return size - pos >= vendorDataLength;
 }
 
 const InterfacePayload::Header* InterfacePayload::getHeader() const
